@@ -25,17 +25,25 @@ CHECKS = {
    note=EXPR_NOTE),
  "C05": dict(cat="translation_validation", ref="4 C05",
    text="On every result of every explored path of the C01 shapes: length == sort width of the translated term, variables superset of the free "
-        "constants of the translated term, concrete => no variables, depth == 1 + max child depth (recomputed), concrete_value == denoted value (Z3 query).",
+        "constants of the translated term, concrete => no variables, depth == 1 + max child depth (recomputed), concrete_value == denoted value (Z3 query). "
+        "Second leg: the rewriting utilities of C08 (replace, replace_dict, canonicalize, excavate_ite, burrow_ite) re-run on symbolic constants and their "
+        "results checked for the same metadata; substitution into union / intersection / widen; and what comes back from the real Z3 round trip "
+        "(claripy.simplify) of 120 floating-point / string expressions incl. conversions between widths.",
    technique="symbolic execution on int shadows; metadata assertions per path, value assertions decided by Z3",
    note=EXPR_NOTE),
  "C06": dict(cat="translation_validation", ref="4 C06",
    text="Every shape is built twice on every explored path (all constants symbolic, identity of constant nodes = value equality decided by Z3): "
-        "the two results must be the same object.",
+        "the two results must be the same object. Second leg (exploration): Z3 generates integers whose CPython hashes collide and integers whose byte "
+        "serialisation meets a sentinel / a byte-length boundary; they are built natively in every position that reaches the structural hash (interval "
+        "annotation fields, region address, wide BVV value, user annotation) and four pools of expressions are compared pairwise: identity iff a deep "
+        "structural comparison finds no difference.",
    technique="symbolic execution on int shadows; identity assertions per path (path feasibility decided by Z3)",
    note=EXPR_NOTE),
  "C10": dict(cat="translation_validation", ref="4 C10",
    text="On every Boolean result of the C01 shapes claripy.is_true/is_false and Bool.is_true/is_false are called (twice: cached answers); an answer True "
-        "must be valid/unsatisfiable for the written tree under the path condition for all constants and variables (Z3 query).",
+        "must be valid/unsatisfiable for the written tree under the path condition for all constants and variables (Z3 query). Second leg: a solver's "
+        "is_true / is_false over query histories (both orders, with and without extra constraints, other solvers asked first) on the real "
+        "Backend.is_true memo with the oracle backend, for Solver, SolverComposite, SolverReplacement and SolverHybrid.",
    technique="symbolic execution on int shadows; validity of each True answer decided by Z3 per path",
    note=EXPR_NOTE),
 }
@@ -198,8 +206,10 @@ for _p, _cat, _t in (
                               "queries spanning groups, extra constraints joining groups, branch copy-on-write, simplify; same specifications as C11 with the "
                               "harness's flat constraint list as the monolithic reference."),
     ("C13", "model_checking", "SolverReplacement (default options) and SolverHybrid in exact mode over replacement-specific histories (equality, Boolean and bound "
-                              "replacements, conflicts, extra constraints, branches) and C11 families; specifications as C11. The approximate modes are "
-                              "checked as containment obligations on SolverVSA in C24 only (SolverHybrid exact=False is outside this check)."),
+                              "replacements, conflicts, extra constraints, branches, merge / split / combine of solvers that learned replacements) and C11 families; "
+                              "specifications as C11. Approximate modes: 15 histories on SolverHybrid asked with exact=False (real SolverReplacement over "
+                              "SolverVSA on the same symbolic constants): containment only - no existing value excluded, min / max do not cut off a value, "
+                              "satisfiable / solution never False for something that exists."),
     ("C14", "model_checking", "Trees of up to three branched solver objects (branch of a branch) with interleaved adds, queries, simplify, downsize on every "
                               "frontend class, reuse_z3_solver on/off; every answer is specified by the constraint list of its own object."),
     ("C15", "model_checking", "merge (with/without common ancestor, 2-3 solvers, overlapping conditions), combine (disjoint / overlapping / after cached queries) "
@@ -207,13 +217,18 @@ for _p, _cat, _t in (
                               "finite expansion), split parts share no variables and partition the conjuncts; later queries on the result checked as in C11."),
     ("C16", "model_checking", "Tracked Solver / SolverComposite / SolverHybrid reaching unsatisfiability in different orders; the oracle may return any "
                               "unsatisfiable subset as core (forked). unsat_core() must be a flat sequence of ASTs, each (equivalent to) an added constraint, "
-                              "jointly unsatisfiable, and empty when satisfiable."),
+                              "jointly unsatisfiable, and empty when satisfiable; also for solvers derived by branch / split / merge / combine from an unsatisfiable one "
+                              "(the oracle solver, like z3.Solver, reports a core only after its own unsat check). Kernel leg: the real BackendZ3.add(track=True) / "
+                              "unsat_core with a symbolic core subset and term-cache configuration: every element is identically an added constraint."),
     ("C17", "fault_enumeration", "Histories in which the k-th backend check raises ClaripySolverInterruptError for a symbolic k (every position of every "
                                  "check); the faulted operation must raise a claripy error and every later answer of the object and its branches must meet "
                                  "the C11 specifications. Kernel leg: real BackendZ3._batch_eval / _extrema on an oracle solver object - after a timeout the "
-                                 "assertion stack must be exactly what it was before."),
+                                 "assertion stack must be exactly what it was before; the public BackendZ3 entry points (satisfiable, check_satisfiability, solution, "
+                                 "eval, min, max) must raise when a check times out."),
     ("C18", "model_checking", "A pickle round trip inserted at every position of six base histories on every frontend class; later answers must meet the "
-                              "same specifications. (In-process; expressions with symbolic constants resolve through the live hash-cons table.)"),
+                              "same specifications; two solvers in one pickle; for approximate answers of SolverHybrid the never-pickled original runs on as a twin. "
+                              "Native legs: four pools of expressions in-process (identity) and across interpreter processes with different PYTHONHASHSEEDs "
+                              "(structural equality, equivalence), six solver scenarios pickled in one process and queried in another."),
 ):
     CHECKS[_p] = dict(cat=_cat, ref=f"4 {_p} / 11.12", engine="pysym", text=_t,
                       technique="symbolic execution of the real frontend code on a symbolic oracle backend; per path Z3 decides each answer's specification",
